@@ -248,7 +248,7 @@ def run(tier: str, replay=None) -> int:
         else:
             check_real_fits(chk, random.Random(seed() + 1313), 40 if tier == "quick" else 400)
         return chk.finish()
-    n = 800 if tier == "quick" else 15000
+    n = 800 if tier == "quick" else 6000
     cases = [gen_case(rng) for _ in range(n)]
     exp, tot = tlc_expected(cases, shards=8 if tier == "quick" else 14)
     chk.add_tlc(tot, "ObjectiveCases")
@@ -268,5 +268,5 @@ def run(tier: str, replay=None) -> int:
             chk.sample({"features": features(case), "npoints": sum(x["npoints"] for x in e), "nclps": sum(x["nclps"] for x in e), "npenalties": sum(x["npenalties"] for x in e)})
     if nin < n // 5:
         raise MachineryError(f"only {nin} of {n} cases usable")
-    check_real_fits(chk, rng, 16 if tier == "quick" else 400)
+    check_real_fits(chk, rng, 16 if tier == "quick" else 150)
     return chk.finish()
